@@ -72,6 +72,8 @@ impl<const N: usize, T: Send + Sync> ConIterOfArray<N, T> {
 
         let mut vec = Vec::from_raw_parts(array.as_mut_ptr(), N, 0);
         let right_vec = vec.split_off(left_len);
+        // elements on the left have already been yielded; they must not be dropped again
+        vec.set_len(0);
 
         *man_array = ManuallyDrop::new(array);
         right_vec
@@ -187,6 +189,8 @@ impl<const N: usize, T: Send + Sync> ConcurrentIter for ConIterOfArray<N, T> {
     fn into_seq_iter(self) -> Self::SeqIter {
         let current = self.counter().current();
         let remaining_vec = unsafe { self.split_off_right(current.min(N)) };
+        // the remaining elements are now owned by `remaining_vec`; `Drop` must not drop them again
+        std::mem::forget(self);
         remaining_vec.into_iter()
     }
 
